@@ -90,6 +90,9 @@ def check_verified(res, facts):
             targets.append((fn, {2}, "SqrtPrecomputation::sqrt"))
         if fn.kind == "Closure" and root.endswith("::sqrt") and QUAD in root:
             targets.append((fn, {1}, "QuadExtField::sqrt::" + fn.id.rsplit("::", 1)[-1]))
+        if fn.kind != "Closure" and fn.name == "sqrt" and fn.self_head == QUAD and fn.trait_impl == "ark_ff::fields::Field":
+            # the general arm may be written in the body itself (`let alpha = norm.sqrt()?; ...`) instead of a closure
+            targets.append((fn, {1}, "QuadExtField::sqrt"))
     for fn, inputs, label in targets:
         dep = DF.Dep(fn)
         sites = root_sites(fn)
